@@ -222,6 +222,44 @@ CLAIMED = {
 
 NOT_YET = "check not built yet in this round (see DESIGN.md §8 build order); not claimed until its theorems and correspondence suite exist"
 
+# ---- later additions, applied to the texts above (each `old` must occur exactly once)
+def _amend(pid, field, old, new):
+    t = CLAIMED[pid][field]
+    assert t.count(old) == 1, (pid, field, old[:40])
+    CLAIMED[pid][field] = t.replace(old, new)
+
+_amend("C02", "text", "the WORD PARSER component is discharged outright:",
+       "the RULE LEXER and the WORD PARSER components are discharged outright - Lexer::get_line returns a token list or a RuleSyntaxError for EVERY line "
+       "(Props/C02Lex.lexLine_returns: every recogniser consumes at least one character or declines, `advance` is never reached on an exhausted source; uses one fact about "
+       "the regenerated grapheme table, checked by the kernel) - and for the RULE PARSER, ported function by function (Model/Parser), every one of its eleven loops ends on "
+       "EVERY token list (Props/C02Parse.parse_terminates / parseLine_terminates: each element function consumes a real token, `Eol` is never consumed, the one backward jump of "
+       "get_spec_env lands at or after its start), so a line is parsed, rejected, or hits one of the modelled panic sites (numbers above usize::MAX = known finding D2, the "
+       "unreachable!() after an empty term = D30); the word parser:")
+_amend("C02", "note", "PARTIAL: the rule/alias lexers and parsers are not ported to Lean yet (their totality rests on the search only);",
+       "PARTIAL: the rule lexer and parser are ported and compared with the code on ~40k lines per run each (lex-ops: tokens and error spans; parse-ops: the parsed rule, error "
+       "variant and spans, panics); absence of the parser's INDEX panics is not proved; the alias lexer and parser are not ported (their totality rests on the search only);")
+_amend("C02", "technique", "word parser returns on every text)", "rule lexer and word parser return on every text; rule parser terminates on every token list)")
+_amend("C13", "text", "PARTIAL: the rule-level equivalences (arrows, | vs //, * vs ∅, ellipsis and angle spellings, spaces in matrices, trailing comments, alpha/variable renaming, "
+       "input aliases, doubled segments) have no theorem yet - the lexer and parser are not ported - and are decided by the c13-spec search:",
+       "Proved over the port of the rule lexer (Model/Lexer, tied to Lexer::get_line token by token on ~40k generated, mutated, respelled and noise lines per run), for EVERY "
+       "continuation of the line and every lexer state in which the spelling can occur (Props/C13Lex): `->` and `=>` are the same Arrow token and leave the same state; `…`, `⋯`, "
+       "`..`, `...` are all Ellipsis; `<`/`⟨` open and `>`/`⟩` close a syllable structure alike (same token or same NestedBrackets error); white space before a token only moves "
+       "the position; feature names are looked up case-insensitively and two spellings of one table row give the same token; the typewriter apostrophe is the ejective mark and "
+       "g ? ! ł ñ φ are read as ɡ ʔ ǃ ɬ ɲ ɸ. Over the port of the parser (Props/C13Parse): `|` and `//` both enter get_env, `*` and `∅` are the same EmptySet element, `->`/`=>` "
+       "and `>` both separate input from output and both satisfy the insertion follow-check. PARTIAL: that the REST of the parse is unaffected (a simulation over the whole "
+       "parser), trailing comments, alpha/variable renaming, word-level aliases and doubled segments are decided by the c13-spec search:")
+_amend("C17", "text", "PARTIAL: that every error the lexer/parser/interpreter produce is well placed is not proved (front ends not ported); it is decided by the c17-spec search:",
+       "For the rule LEXER well-placedness is a theorem over all lines (Props/C17Lex, over the lexer port): the span of every RuleSyntaxError of lexer.rs lies within the "
+       "line (lexLine_error_span), hence every rule line the lexer rejects formats without panic with its carets inside the line (lexer_error_formats = composition with "
+       "format_well_placed); and the tokens handed to the parser have non-empty, consecutive spans inside the line, the last one Eol at [len, len+1) (lexLine_token_spans). "
+       "PARTIAL: that parser and interpreter errors are well placed is not proved - the parser is ported and its error spans are compared with the implementation's on ~40k "
+       "lines per run (parse-ops), but the invariant over its item positions has no theorem; it is decided by the c17-spec search:")
+_amend("C12", "text", "PARTIAL: `_,X`, optionals and `&` vs variables are decided by c12-spec",
+       "`_,X` is expanded by the PARSER: whenever get_spec_env accepts, it returns exactly the two environments `X _` and `_ X-reversed` with the span of the shorthand "
+       "(Props/C12Parse.spec_env_expands, over the parser port, which is compared with Parser::parse on ~40k lines per run). PARTIAL: that the interpreter then treats the two "
+       "environments as it treats the typed-out pair, optionals and `&` vs variables are decided by c12-spec")
+
+
 def main():
     checks = []
     for p in ALL:
